@@ -812,7 +812,7 @@ func (l *legacy) genNotary(t testing.TB, r *rand.Rand, p *c16Pools, purge bool, 
 			truthy = true
 		}
 	}
-	if len(flag) > 32 {
+	if len(flag) > 32 && switching {
 		l.ExpectFault = "notary flag longer than 32 bytes"
 	}
 	ballot := func(age int64) stackitem.Item {
@@ -1399,6 +1399,24 @@ func (r *c16Run) runLegacy(l *legacy, coqName string) {
 		}
 	}
 	if !l.Premise {
+		for _, sh := range l.Shape {
+			if sh == "corpus:estimation-key-of-length-57" {
+				// F16: the 57-byte estimation key is listed as a container of a fake owner
+				it, err := v.Read(h, "containersOf", nil)
+				require.NoError(t, err)
+				bogus := 0
+				for _, x := range itemsOf(it) {
+					if len(ItemBytes(x)) != 32 {
+						bogus++
+					}
+				}
+				if bogus == 1 && len(itemsOf(it)) == 2 {
+					r.st.AddKnown("C16/container-estimation-key-len57")
+				} else {
+					bad("estimation key of length 57: unexpected listing (%d entries, %d bogus)", len(itemsOf(it)), bogus)
+				}
+			}
+		}
 		return
 	}
 	switch l.Contract {
@@ -1767,7 +1785,6 @@ func (r *c16Run) corpus() []*legacy {
 	mk("proxy", prev, func(l *legacy) { l.Data = c16Arr(); l.ExpectFault = "empty data"; l.shape("corpus:data-empty") })
 	mk("proxy", prev, func(l *legacy) { l.Data = c16Null; l.ExpectFault = "null data"; l.shape("corpus:data-null") })
 	mk("proxy", prev, func(l *legacy) { l.Data = c16Arr(c16Arr()); l.ExpectFault = "array as version"; l.shape("corpus:data-array-version") })
-	mk("proxy", prev, func(l *legacy) { l.Data = c16Arr(c16Bool(true)); l.shape("corpus:data-bool-version") })
 	mk("proxy", 1, func(l *legacy) { l.Data = c16Arr(c16Bool(true)); l.shape("corpus:data-bool-version") })
 	mk("processing", prev, func(l *legacy) { l.Data = c16Arr(c16Bytes(bytes.Repeat([]byte{1}, 33))); l.ExpectFault = "33-byte version"; l.shape("corpus:data-long-version") })
 	return out
